@@ -147,9 +147,31 @@ func Load(repo string, tier string, overlay Overlay) (*Program, error) {
 	if buildErr != nil {
 		return nil, buildErr
 	}
+	seenFn := map[*ssa.Function]bool{}
+	var addFn func(fn *ssa.Function)
+	addFn = func(fn *ssa.Function) {
+		if fn == nil || seenFn[fn] || !InModule(fn) {
+			return
+		}
+		seenFn[fn] = true
+		p.ModFuncs = append(p.ModFuncs, fn)
+		for _, a := range fn.AnonFuncs {
+			addFn(a)
+		}
+	}
 	for fn := range ssautil.AllFunctions(p.SSA) {
-		if InModule(fn) {
-			p.ModFuncs = append(p.ModFuncs, fn)
+		addFn(fn)
+	}
+	// every function and method declared in the module's source, including ones nothing calls
+	// (linker-style reachability would hide a dead-but-wrong writer from the who-may-write rules)
+	for _, pk := range pkgs {
+		if pk.TypesInfo == nil {
+			continue
+		}
+		for _, obj := range pk.TypesInfo.Defs {
+			if f, ok := obj.(*types.Func); ok {
+				addFn(p.SSA.FuncValue(f))
+			}
 		}
 	}
 	sort.Slice(p.ModFuncs, func(i, j int) bool { return FuncName(p.ModFuncs[i]) < FuncName(p.ModFuncs[j]) })
